@@ -93,6 +93,7 @@ package node
 //@   ensures @applied_implies_admissible result == nil && Lrel[H] ==> (forall k int :: 0 <= k && k < len(txs) ==> old(admissible(txs, k, currentHeight, rates)))
 //@   ensures @applied_implies_convertible result == nil && Lrel[H] ==> (forall k int :: 0 <= k && k < len(txs) ==> old(convertible(txs, k, currentHeight, rates, averages)))
 //@   ensures @never_negative result == nil ==> balNonNeg(Lbal)
+//@   ensures @rel_frame result == nil || isRejectErr(result) ==> (forall h factom.Bytes32 :: h != H ==> (Lrel[h] <==> old(Lrel)[h]))
 //@   ensures @nil_means_applied result == nil ==> Lrel[H]
 //@   ensures @nil_unapplied_only_if_unconvertible result == nil && !Lrel[H] ==> (exists k int :: 0 <= k && k < len(txs) && !old(convertible(txs, k, currentHeight, rates, averages)))
 //@   loop 1 invariant @range 0 <= iter && iter <= len(txs)
@@ -144,12 +145,17 @@ package node
 //@   requires @nonneg balNonNeg(Lbal)
 //@   requires @status statusInv(Lexec, Lrel, Lhist) && holdInv(Lhold, Lhist)
 //@   requires @burn_parses validFA(GlobalBurnAddress)
+//@   requires @held_in_window_unexecuted forall h factom.Bytes32 :: lastRatedBefore(Lrated, currentHeight) <= Lhold[h] && Lhold[h] < currentHeight ==> !Lrel[h]
 //@   modifies Lbal, Lsupply, Lrel, Lexec, LtoAmt, Lrefund, LbankUsed, LbankReq, d.LastAveragesData, d.LastAverages, d.LastAveragesHeight
 //@   ensures @status err == nil ==> statusInv(Lexec, Lrel, Lhist)
 //@   ensures @never_negative err == nil ==> balNonNeg(Lbal)
 //@   loop 1 invariant @window lastRatedBefore(Lrated, currentHeight) <= i && i <= currentHeight && height == lastRatedBefore(Lrated, currentHeight)
 //@   loop 1 invariant @status statusInv(Lexec, Lrel, Lhist) && holdInv(Lhold, Lhist) && balNonNeg(Lbal)
+//@   loop 1 invariant @unexecuted forall h factom.Bytes32 :: i <= Lhold[h] && Lhold[h] < currentHeight ==> !Lrel[h]
 //@   loop 1 invariant @averages avgOf(averages, lastRatedBefore(Lrated, currentHeight))
 //@   loop 2 invariant @window lastRatedBefore(Lrated, currentHeight) <= i && i < currentHeight
 //@   loop 2 invariant @status statusInv(Lexec, Lrel, Lhist) && holdInv(Lhold, Lhist) && balNonNeg(Lbal)
+//@   loop 2 invariant @unexecuted_later forall h factom.Bytes32 :: i < Lhold[h] && Lhold[h] < currentHeight ==> !Lrel[h]
+//@   loop 2 invariant @unexecuted_rest forall k int :: iter <= k && k < len(txBatches) ==> !Lrel[*txBatches[k].Entry.Hash]
+//@   loop 2 invariant @distinct forall j int, k int :: 0 <= j && j < k && k < len(txBatches) ==> *txBatches[j].Entry.Hash != *txBatches[k].Entry.Hash
 //@   loop 2 invariant @batches forall k int :: 0 <= k && k < len(txBatches) ==> txBatches[k] != nil && txBatches[k].Entry.Hash != nil && tickersInRange(txBatches[k].Transactions) && Lhold[*txBatches[k].Entry.Hash] == i
